@@ -7,7 +7,7 @@ from tokutil import *  # noqa
 import h1tok_util as H
 
 ID = "C19"
-LEAN_MODULE = ["SCoda.Props.C19", "SCoda.Props.C19b", "SCoda.Props.Gaps", "SCoda.Props.TokTie"]
+LEAN_MODULE = ["SCoda.Props.C19", "SCoda.Props.C19b", "SCoda.Props.Gaps", "SCoda.Props.TokTie", "SCoda.Props.Defs"]
 LEVEL = "proof"
 CLAUSES = [
     ("the annotation lists have exactly one entry per token and positions count 0,1,2,...", ["SCoda.C19.lengths", "SCoda.C19.positions", "SCoda.C19.getInfo_eq"]),
@@ -29,6 +29,8 @@ CLAUSES = [
      ["SCoda.Gaps.times_monotone_threaded", "SCoda.Gaps.barEnds_increasing_threaded", "SCoda.Gaps.threaded_accepted"]),
     ("TIE BY TRANSLATION, tokeniser: MultiTrackLargeVocabularyNotelikeTokeniser is re-translated statement by statement on every run (Gen/TokFns.lean, tools/py2lean_tok.py: __init__, _construct_dictionary, tokenise with its closure _apply_rest as a fuelled loop, detokenise, get_info, encode, decode; f-strings as string concatenation, dicts as association lists, floats as exact rationals) and each translation is proved equal to the hand model the theorems above are about, on rendered token strings: get_info on rendered tokens = the model's getInfo (0 ≤ ppqn, natural-number token fields; never raises), detokenise = model detokenise",
      ["SCoda.TokTie.getInfo_eq", "SCoda.TokTie.detokenise_eq", "SCoda.TokTie.detokenise_step"]),
+    ("detokenise on arbitrary strings: on every string list the model parser accepts (numeric fields non-empty ASCII digit strings, any width, parts in any order) the generated code equals the model for ppqn >= 0 and non-zero denominators; tsg_04_00 raises ZeroDivisionError (model: capacity 0); the source also accepts rst_+5 / 'rst_ 5', which the model parser rejects (an artefact of the model's int parser, not of the code; non-ASCII digits are outside the link int(str))",
+     ["SCoda.Defs.detokenise_strings_partial", "SCoda.Defs.model_int_digits", "SCoda.Defs.parse_accepts_rep", "SCoda.Defs.detokenise_strings_statement_false", "SCoda.Defs.detokenise_plus_sign", "SCoda.Defs.parseTok_plus_sign", "SCoda.Defs.detokenise_anystring_statement_false"]),
 ]
 RULE = ("random streams over the vocabulary of sampled configurations (<=60 tokens: bar tokens in partly filled bars, "
         "signature tokens mid-bar, unfused running values), plus streams produced by tokenise from valid pieces (the piece is the input: the "
